@@ -1348,14 +1348,14 @@ def _char_loops(f):
     return out
 
 
-def _d10_eval(node, acted, drops, depth=0):
+def _d10_eval(node, acted, drops, depth=0, act=None):
     """abstract run of one loop iteration.  `acted` is the set of possible values of "did something with the character"
     on entry; returns the set on fall-through.  Paths that end the iteration (continue) with False are recorded in drops."""
     if not acted or node is None:
         return acted if node is None else set()
     if isinstance(node, list):
         for x in node:
-            acted = _d10_eval(x, acted, drops, depth)
+            acted = _d10_eval(x, acted, drops, depth, act)
             if not acted:
                 break
         return acted
@@ -1363,34 +1363,36 @@ def _d10_eval(node, acted, drops, depth=0):
         return acted
     k = node.get("k")
     if k in ("Semi", "Expr", "DropTemps", "Cast", "AddrOf", "Field", "Unary"):
-        return _d10_eval(node.get("e"), acted, drops, depth)
+        return _d10_eval(node.get("e"), acted, drops, depth, act)
     if k == "Let":
-        return _d10_eval(node.get("init"), acted, drops, depth)
+        return _d10_eval(node.get("init"), acted, drops, depth, act)
     if k == "Block":
         b = node.get("b") or {}
         if isinstance(b, dict):
-            a = _d10_eval(b.get("stmts") or [], acted, drops, depth)
-            return _d10_eval(b.get("expr"), a, drops, depth) if b.get("expr") is not None else a
-        return _d10_eval(b, acted, drops, depth)
-    if k in ("Assign", "AssignOp"):
-        _d10_eval(node.get("r"), acted, drops, depth)
+            a = _d10_eval(b.get("stmts") or [], acted, drops, depth, act)
+            return _d10_eval(b.get("expr"), a, drops, depth, act) if b.get("expr") is not None else a
+        return _d10_eval(b, acted, drops, depth, act)
+    if act is not None and act(node):
         return {True}
+    if k in ("Assign", "AssignOp"):
+        a = _d10_eval(node.get("r"), acted, drops, depth, act)
+        return {True} if act is None else a
     if k == "MethodCall":
-        a = _d10_eval(node.get("recv"), acted, drops, depth)
-        a = _d10_eval(node.get("args"), a, drops, depth)
-        if node.get("m") in _ACC_METHODS:
+        a = _d10_eval(node.get("recv"), acted, drops, depth, act)
+        a = _d10_eval(node.get("args"), a, drops, depth, act)
+        if act is None and node.get("m") in _ACC_METHODS:
             return {True} if a else a
         return a
     if k == "Call":
-        a = _d10_eval(node.get("args"), acted, drops, depth)
+        a = _d10_eval(node.get("args"), acted, drops, depth, act)
         return a
     if k == "If":
-        a = _d10_eval(node.get("cond"), acted, drops, depth)
-        t = _d10_eval(node.get("then"), set(a), drops, depth)
-        e = _d10_eval(node.get("else"), set(a), drops, depth) if node.get("else") is not None else set(a)
+        a = _d10_eval(node.get("cond"), acted, drops, depth, act)
+        t = _d10_eval(node.get("then"), set(a), drops, depth, act)
+        e = _d10_eval(node.get("else"), set(a), drops, depth, act) if node.get("else") is not None else set(a)
         return t | e
     if k == "Match":
-        a = _d10_eval(node.get("scrut"), acted, drops, depth)
+        a = _d10_eval(node.get("scrut"), acted, drops, depth, act)
         if node.get("src") == "TryDesugar":
             # `Err(..)?` always returns: the continue arm of the desugaring is not a way through
             sc = peel(node.get("scrut") or {})
@@ -1401,8 +1403,8 @@ def _d10_eval(node, acted, drops, depth=0):
         out = set()
         for arm in node.get("arms", []):
             g = arm.get("guard")
-            a2 = _d10_eval(g, set(a), drops, depth) if g is not None else set(a)
-            out |= _d10_eval(arm.get("body"), a2, drops, depth)
+            a2 = _d10_eval(g, set(a), drops, depth, act) if g is not None else set(a)
+            out |= _d10_eval(arm.get("body"), a2, drops, depth, act)
         return out
     if k == "Continue":
         if False in acted:
@@ -1412,18 +1414,20 @@ def _d10_eval(node, acted, drops, depth=0):
         return set()
     if k == "Loop":
         inner = []
-        a = _d10_eval(node.get("body"), set(acted), inner, depth + 1)
+        a = _d10_eval(node.get("body"), set(acted), inner, depth + 1, act)
         # an inner loop: its own continues stay inside it
+        if act is not None:
+            return set(acted) | a | ({True} if any(act(x) for x in walk(node)) else set())
         return set(acted) | a | ({True} if any(x.get("k") in ("Assign", "AssignOp") or (x.get("k") == "MethodCall" and x.get("m") in _ACC_METHODS) for x in walk(node)) else set())
     if k == "Closure":
         return acted
     if k == "Binary":
-        a = _d10_eval(node.get("l"), acted, drops, depth)
-        return _d10_eval(node.get("r"), a, drops, depth)
+        a = _d10_eval(node.get("l"), acted, drops, depth, act)
+        return _d10_eval(node.get("r"), a, drops, depth, act)
     if k in ("Tup", "Array"):
-        return _d10_eval(node.get("es"), acted, drops, depth)
+        return _d10_eval(node.get("es"), acted, drops, depth, act)
     if k == "Struct":
-        return _d10_eval([fl.get("e") for fl in node.get("fields", []) if isinstance(fl, dict)], acted, drops, depth)
+        return _d10_eval([fl.get("e") for fl in node.get("fields", []) if isinstance(fl, dict)], acted, drops, depth, act)
     return acted
 
 
@@ -1840,6 +1844,19 @@ def t18_analyse(f):
                 if not shifted:
                     continue
                 n_arms += 1
+                # order: the shifted id is recorded only after the shift - a record taken before `L = id + 1` holds the unshifted id
+                order = {id(x): i for i, x in enumerate(walk(arm["body"]))}
+                shift_pos = {}
+                for n in walk(arm["body"]):
+                    if n.get("k") in ("Assign", "AssignOp") and peel(n["l"]).get("lid") in shifted:
+                        shift_pos[peel(n["l"])["lid"]] = max(shift_pos.get(peel(n["l"])["lid"], -1), order[id(n)])
+                for n in walk(arm["body"]):
+                    if n.get("k") == "Assign" and peel(n["l"]).get("k") == "Path" and peel(n["l"]).get("lid") in state:
+                        r_ = peel(n["r"])
+                        if r_.get("k") == "Call" and (callee(r_) or "").endswith("::Some") and r_.get("args"):
+                            a0 = peel(r_["args"][0])
+                            if a0.get("k") == "Path" and a0.get("lid") in shifted and order[id(n)] < shift_pos.get(a0["lid"], -1):
+                                fnd.append(("recorded-before-shift:%s" % state[peel(n["l"])["lid"]], loc(n), state[peel(n["l"])["lid"]], shifted[a0["lid"]], shifted[a0["lid"]] + " (before it is shifted)"))
                 for n in walk(arm["body"]):
                     if n.get("k") != "Assign":
                         continue
@@ -1995,4 +2012,68 @@ def rule_T19(ctx):
             r.control(f["name"], bool(fnd))
         else:
             r.neg_control(f["name"], n >= 1 and not fnd)
+    return r
+
+
+# ---------------------------------------------------------------------------------------------------------------------
+# D11  slot / node agreement in the builder: the build node stored at slot i of the node list is the build node OF parse
+#      node i (its constructor's first argument is the index it will re-schedule).  `nodes[left] = BuildNode::new(right, ..)`
+#      makes an operand re-schedule its sibling: the operand itself never emits its instruction.
+def d11_sites(f):
+    body = Body(f)
+    out = []
+    def key(e):
+        e = peel(e)
+        while e.get("k") == "MethodCall" and e.get("m") in ("clone", "to_owned"):
+            e = peel(e["recv"])
+        if e.get("k") == "Path" and e.get("res") == "local":
+            return ("l", e["lid"])
+        if e.get("k") == "Field":
+            return ("f", e.get("name"), key(e["e"]))
+        if e.get("k") == "Unary":
+            return key(e["e"])
+        return ("?", id(e))
+    def ctor(e):
+        e = peel(e)
+        if e.get("k") == "Call" and (callee(e) or "").endswith("::Some") and e.get("args"):
+            e = peel(e["args"][0])
+        if e.get("k") == "Call" and "BuildNode" in (callee(e) or "") and e.get("args"):
+            return e
+        return None
+    for n in walk(f["hir"]):
+        if n.get("k") == "Assign" and peel(n["l"]).get("k") == "Index" and "BuildNode" in (peel(n["l"]).get("base_ty") or ""):
+            c = ctor(n["r"])
+            if c is not None:
+                out.append((loc(n), key(peel(n["l"])["idx"]) == key(c["args"][0]), last(callee(c))))
+        if n.get("k") == "Tup" and len(n.get("es", [])) == 2:
+            c = ctor(n["es"][1])
+            if c is not None:
+                out.append((loc(n), key(n["es"][0]) == key(c["args"][0]), last(callee(c))))
+    return out
+
+
+def rule_D11(ctx):
+    F = ctx.F
+    r = RuleResult("D11", "slot / node agreement: the build node the builder stores at slot i is constructed for parse node i (the index it re-schedules is its own)")
+    n = 0
+    for f in sorted(F.fns.values(), key=lambda f: f["path"]):
+        if f["crate"] != "garnish_lang_compiler" or "::build::" not in f["path"] or f["kind"] == "Closure":
+            continue
+        k = 0
+        for where, ok, cn in d11_sites(f):
+            n += 1
+            r.examine((f["path"], where), True, {"fn": last(f["path"]), "where": where, "constructor": cn, "agrees": ok} if n % 9 == 1 else None)
+            if not ok:
+                k += 1
+                r.finding(f["path"], "slot-node-mismatch:%s#%d" % (last(f["path"]), k), where, "at %s a build node constructed for one parse node (`%s(<index>, ..)`) is stored at another node's slot: the operand whose slot it is re-schedules its sibling instead of itself, never emits its own instruction and no instruction is attributed to it - parse and build still return Ok" % (where, cn))
+    r.floor("build nodes stored by index", n, 20)
+    for f in F.fns_in("gfixture::round3::d11::"):
+        if f["kind"] == "Closure" or not f.get("name", "").startswith(("ctl_", "ok_")):
+            continue
+        ss = d11_sites(f)
+        bad = any(not ok for _w, ok, _c in ss)
+        if f["name"].startswith("ctl_"):
+            r.control(f["name"], bad)
+        else:
+            r.neg_control(f["name"], bool(ss) and not bad)
     return r
